@@ -202,3 +202,7 @@ Definition py_sorted_neg {A} (k : A -> Qx) (l : list A) : list A :=
    (a, i) <= (b, j) iff a < b or (a == b and i <= j) *)
 Definition py_sorted_neg_then {A} (k : A -> Qx) (ix : A -> nat) (l : list A) : list A :=
   isort (fun x y => Qx_ltb (k y) (k x) || (Qx_eqb (k x) (k y) && Nat.leb (ix x) (ix y))) l.
+
+(* a value of Q + {inf} stored where only exact numbers can live (a voter's load): the translation cannot represent a
+   float infinity there and reports it as an exception of its own, "FloatInfinity"; the theorems show it cannot occur *)
+Definition py_finite (x : Qx) : option Q := match x with Fin q => Some q | PInf => None end.
